@@ -77,7 +77,7 @@ def classify(ctx, exc, kind, method, info, pids=(P,)):
         ctx.prove(kind == "zombie", "Zombie-only-if-zombie", detail=f"{method} | {info}")
 
 
-@harness("C03.single", quick=[dict(method=m, kind=kd) for m in METHODS for kd in ("vanish", "deny", "deny_eperm", "zombie", "esrch")], timeout_ms=5000)
+@harness("C03.single", quick=[dict(method=m, kind=kd) for m in METHODS for kd in ("vanish", "half_gone", "deny", "deny_eperm", "zombie", "esrch")], timeout_ms=5000)
 def single(ctx, method, kind):
     k = build(ctx, zombie=(kind == "zombie"))
     with k.installed():
@@ -89,8 +89,9 @@ def single(ctx, method, kind):
         k.fault.prefix = f"/proc/{P}"
         k.naccess = 0
         idx = ctx.int("k", 0, 400)
-        if kind == "vanish":
+        if kind in ("vanish", "half_gone"):
             k.fault.vanish_at = idx
+            k.fault.keep_dir = kind == "half_gone"      # everything inside /proc/<pid> is gone, the directory still answers stat()
         elif kind in ("deny", "deny_eperm"):
             k.fault.deny_at = idx
             k.fault.deny_errno = errno.EACCES if kind == "deny" else errno.EPERM
@@ -105,8 +106,8 @@ def single(ctx, method, kind):
         except Exception as e:  # noqa: BLE001
             exc = e
         info = f"fault={k.fault.fired[:2]} after {k.naccess} accesses"
-        classify(ctx, exc, "vanish[esrch-once]" if kind == "esrch" else kind, method, info)
-        if kind == "vanish" and k.fault.fired:
+        classify(ctx, exc, "vanish[esrch-once]" if kind == "esrch" else "vanish[directory-lingers]" if kind == "half_gone" else kind, method, info)
+        if kind in ("vanish", "half_gone") and k.fault.fired:
             # once the process is gone every later query on that object raises NoSuchProcess
             for m2 in ("name", "cpu_times", "memory_info", "cmdline", "status", "ppid", "num_fds", "nice"):
                 try:
@@ -116,6 +117,39 @@ def single(ctx, method, kind):
                     e2 = e
                 ctx.prove(isinstance(e2, psutil.NoSuchProcess) and e2.pid == P, "gone-stays-gone", detail=f"after {method} vanished at {k.fault.fired[0]}: {m2} -> {e2!r}")
             ctx.prove(p.is_running() is False, "gone-stays-gone", detail="is_running()")
+
+
+@harness("C03.stranger", quick=[dict(method=m, kind=kd) for m in ("children", "children_r", "parent", "parents") for kd in ("vanish", "deny", "deny_eperm")], timeout_ms=5000)
+def stranger(ctx, method, kind):
+    """a process that is NOT a relative of the object (another child of init) vanishes or turns unreadable while the tree is walked, at
+    every access index to its /proc entries: the answer about the object's own relatives is what it is without the fault"""
+    k = simk.Kernel(ctx)
+    simk.system_files(k)
+    simk.full_process(k, 1, ppid=0, comm="init")
+    simk.full_process(k, P, ppid=1)
+    simk.full_process(k, 90, ppid=P, comm="kid")
+    simk.full_process(k, 95, ppid=1, comm="stranger")
+    k.dirs["/proc"] = ["1", str(P), "90", "95"]
+    k.fault.pid = 95
+    with k.installed():
+        p = psutil.Process(P)
+        k.fault.prefix = "/proc/95"
+        k.naccess = 0
+        idx = ctx.int("k", 0, 400)
+        if kind == "vanish":
+            k.fault.vanish_at = idx
+        else:
+            k.fault.deny_at = idx
+            k.fault.deny_errno = errno.EACCES if kind == "deny" else errno.EPERM
+        try:
+            r, exc = call(p, method), None
+        except Exception as e:  # noqa: BLE001
+            r, exc = None, e
+    info = f"fault on the unrelated pid 95: {k.fault.fired[:2]}"
+    ctx.prove(exc is None, "stranger-does-not-matter", detail=f"{method}: {exc!r} | {info}")
+    if exc is None:
+        got = r.pid if method == "parent" and r is not None else [x.pid for x in r] if r is not None else None
+        ctx.prove(got == {"children": [90], "children_r": [90], "parent": 1, "parents": [1]}[method], "stranger-does-not-matter", detail=f"{method}: {got} | {info}")
 
 
 @harness("C03.relative", quick=[dict(method=m, kind=kd) for m in ("children", "children_r", "parent", "parents") for kd in ("vanish", "deny", "deny_eperm", "zombie")], timeout_ms=5000)
